@@ -116,9 +116,12 @@ fn write_copy(dir: &Path, extra: i64) {
     let sw = Arc::new(Schema::new(vec![Field::new("k", DataType::Int64, false), Field::new("z", DataType::Int64, false)]));
     let ks: Vec<i64> = (0..nw).collect();
     write_parquet(&dir.join("w.parquet"), sw, vec![i64col(ks.clone()), i64col(ks.iter().map(|k| k + 70).collect())], 64);
+    // e: no row group at all (the coordinator's "active.is_empty()" path); the diverged copy has one row
+    let se = Arc::new(Schema::new(vec![Field::new("a", DataType::Int64, false)]));
+    write_parquet(&dir.join("e.parquet"), se, vec![i64col((0..extra).collect())], 64);
 }
 
-const TABLES: [&str; 3] = ["t", "u", "w"];
+const TABLES: [&str; 4] = ["t", "u", "w", "e"];
 
 fn ctx_over(dir: &Path) -> ExecutionContext {
     let mut c = ExecutionContext::new();
@@ -138,7 +141,9 @@ pub fn statements() -> Vec<(&'static str, &'static str)> {
         ("topn", "SELECT id, v FROM t ORDER BY v DESC LIMIT 7"),
         ("join", "SELECT t.id, u.w FROM t JOIN u ON t.g = u.g WHERE t.v < 30 AND t.id IN (SELECT id FROM t WHERE v > 4)"),
         ("gunion", "SELECT g FROM t WHERE v < 9 UNION ALL SELECT w FROM u"),
+        ("gunion2", "SELECT g FROM t WHERE v < 9 UNION ALL SELECT k FROM w"),
         ("gdistinct", "SELECT DISTINCT g FROM t"),
+        ("empty", "SELECT COUNT(*) AS c FROM e"),
         ("tiny", "SELECT k, z FROM w WHERE k >= 0"),
     ]
 }
@@ -393,6 +398,8 @@ struct FaultTransport {
     rank: HashMap<(String, usize), usize>,
     turn: tokio::sync::watch::Sender<usize>,
     log: Mutex<Vec<Value>>,
+    /// appended to before a faulted answer is handed to the coordinator: survives a process abort
+    side: Option<PathBuf>,
 }
 
 const GARBAGE_VARIANTS: usize = 6;
@@ -522,11 +529,13 @@ impl FaultTransport {
                     }
                 };
                 rec["cls"] = json!(region);
+                rec["overrun"] = json!(if parse_ipc(&b).err().map(|e| e.contains("beyond the end")).unwrap_or(false) { 1 } else { 0 });
                 Ok((b, rows, 0.0))
             }
             Fault::Garbage(v) => {
                 let (b, what) = garbage(&bytes, &lay, *v);
                 rec["cls"] = json!(what);
+                rec["overrun"] = json!(if parse_ipc(&b).err().map(|e| e.contains("beyond the end")).unwrap_or(false) { 1 } else { 0 });
                 Ok((b, rows, 0.0))
             }
             Fault::DropRows => {
@@ -574,6 +583,16 @@ impl FragmentTransport for FaultTransport {
         rec["returned"] = json!(if out.is_ok() { "bytes" } else { "err" });
         if let Some(o) = rec.as_object_mut() {
             o.remove("want_layout");
+        }
+        if let (Some(p), false) = (&self.side, matches!(fault, Fault::None)) {
+            use std::io::Write;
+            let mut brief = rec.clone();
+            if let Some(o) = brief.as_object_mut() {
+                o.remove("layout");
+            }
+            if let Ok(mut f) = std::fs::OpenOptions::new().create(true).append(true).open(p) {
+                let _ = writeln!(f, "{brief}");
+            }
         }
         self.log.lock().unwrap().push(rec);
         if let Some(my) = my {
@@ -643,7 +662,7 @@ fn topology(ctx: &ExecutionContext, sql: &str, n: usize) -> Result<Value, String
     Ok(json!({"shape": shape, "tables": tables, "active": active}))
 }
 
-fn run_case(fx: &Fixture, c: &Value) -> Value {
+fn run_case(fx: &Fixture, c: &Value, side: Option<&Path>) -> Value {
     let key = c["stmt"].as_str().unwrap();
     let sql = sql_of(key);
     let n = c["n"].as_u64().unwrap() as usize;
@@ -672,7 +691,7 @@ fn run_case(fx: &Fixture, c: &Value) -> Value {
         rank.insert((o[0].as_str().unwrap().to_string(), o[1].as_u64().unwrap() as usize), k);
     }
     let (turn, _keep) = tokio::sync::watch::channel(0usize);
-    let tr = FaultTransport { good: fx.good.clone(), stale: fx.stale.clone(), plan, rank, turn, log: Mutex::new(Vec::new()) };
+    let tr = FaultTransport { good: fx.good.clone(), stale: fx.stale.clone(), plan, rank, turn, log: Mutex::new(Vec::new()), side: side.map(|p| p.to_path_buf()) };
     let local = c["local"].as_str().unwrap_or("ok");
     let bad;
     let ictx: &ExecutionContext = if local == "err" {
@@ -729,7 +748,7 @@ pub fn topo(a: &[String]) -> i32 {
         for n in 1..=4usize {
             for me in -1..(n as i64) {
                 let c = json!({"cid": 0, "stmt": k, "n": n, "self": me, "local": "ok", "faults": [], "layout": 1});
-                let mut r = run_case(&fx, &c);
+                let mut r = run_case(&fx, &c, None);
                 r["sql"] = json!(sql_of(k));
                 out.put(&r);
             }
@@ -748,7 +767,9 @@ pub fn replay(a: &[String]) -> i32 {
     let fx = fixture(Path::new(&a[2]));
     for c in cases {
         out.begin(&c);
-        let r = run_case(&fx, &c);
+        let side = PathBuf::from(format!("{}.cur.sends", &a[1]));
+        let _ = std::fs::remove_file(&side);
+        let r = run_case(&fx, &c, Some(&side));
         out.put(&r);
     }
     out.finish();
@@ -794,6 +815,8 @@ fn hfault_of(v: &Value) -> HFault {
 struct ProxyState {
     plan: Mutex<HashMap<(String, usize), HFault>>, // (table, peer ordinal)
     log: Mutex<Vec<Value>>,
+    /// faulted sends are also appended here before the bytes leave: survives a process abort
+    side: PathBuf,
 }
 
 async fn read_http_request(s: &mut tokio::net::TcpStream) -> Option<(Vec<u8>, usize)> {
@@ -929,9 +952,20 @@ async fn proxy_conn(mut conn: tokio::net::TcpStream, upstream: String, peer: usi
             outb[off] ^= 0xff;
             rec["applied"] = json!("flip");
             rec["off"] = json!(off - head_len);
+            rec["overrun"] = json!(if parse_ipc(&outb[head_len..]).err().map(|e| e.contains("beyond the end")).unwrap_or(false) { 1 } else { 0 });
         }
         _ => {
             rec["applied"] = json!("unresolved");
+        }
+    }
+    if !matches!(fault, HFault::None) {
+        use std::io::Write;
+        let mut brief = rec.clone();
+        if let Some(o) = brief.as_object_mut() {
+            o.remove("layout");
+        }
+        if let Ok(mut f) = std::fs::OpenOptions::new().create(true).append(true).open(&st.side) {
+            let _ = writeln!(f, "{brief}");
         }
     }
     st.log.lock().unwrap().push(rec);
@@ -1001,7 +1035,7 @@ pub fn http(a: &[String]) -> i32 {
         let na = query_engine::distributed::spawn(opts(0), loader(dirs[0].clone())).await.expect("bind A");
         let nb = query_engine::distributed::spawn(opts(1), loader(dirs[1].clone())).await.expect("bind B");
         let nc = query_engine::distributed::spawn(opts(2), loader(dirs[2].clone())).await.expect("bind C");
-        let st = Arc::new(ProxyState { plan: Mutex::new(HashMap::new()), log: Mutex::new(Vec::new()) });
+        let st = Arc::new(ProxyState { plan: Mutex::new(HashMap::new()), log: Mutex::new(Vec::new()), side: PathBuf::from(format!("{}.cur.sends", &a[1])) });
         let mut paddr = Vec::new();
         for (k, up) in [nb.address().to_string(), nc.address().to_string()].into_iter().enumerate() {
             let l = tokio::net::TcpListener::bind("127.0.0.1:0").await.expect("bind proxy");
@@ -1046,6 +1080,7 @@ pub fn http(a: &[String]) -> i32 {
             let todo = vec![c.clone()];
             for c in todo {
                 out.begin(&c);
+                let _ = std::fs::remove_file(&st.side);
                 {
                     let mut p = st.plan.lock().unwrap();
                     p.clear();
